@@ -241,7 +241,9 @@ def step (u : Unit) (line : String) : Unit × String :=
                   -- `topoOK`: the side condition of the general well-formedness theorems (Hw.Io.SyntheticWF, C07_build_wf_*):
                   -- every topology the model builds and hwloc agrees with must satisfy it
                   if !mv.isEmpty then (u, "load MODEL-WF-FAIL " ++ ",".intercalate (mv.take 4))
-                  else if !topoOK t || !puOK t || !memOK t || !numaOK t then (u, "load HYP-FAIL topoOK")
+                  else if !topoOK t || !puOK t || !memOK t || !numaOK t then
+                    (u, "load HYP-FAIL" ++ (if topoOK t then "" else " topoOK") ++ (if puOK t then "" else " puOK") ++
+                      (if memOK t then "" else " memOK") ++ (if numaOK t then "" else " numaOK"))
                   else (u, "load ok regular")
               else
                 let what := if a.levels != t.levels then "levels" else if a.rootMem != t.rootMem then "rootmem"
